@@ -188,8 +188,6 @@ def dichotomy(sc, inj, r):
     bad = []
     i, o, e = r['in'], r['out'], r['end']
     out_untouched = (o == 'none') or (o == 'pre')
-    if o == 'pre' and sc.force and False:
-        pass
     if not sc.force and sc.pre and o != 'pre':
         bad.append('pre-existing output file harmed without -f')
     if not sc.force and not sc.pre and o == 'pre':
@@ -240,8 +238,21 @@ def dichotomy(sc, inj, r):
     return bad
 
 
+MAX_VIOLATION_FILES = 12
+
+
 def main():
     ck = Check('C16')
+    _violation = ck.violation
+    nviol = [0]
+
+    def capped(what, replay, **kw):
+        nviol[0] += 1
+        if nviol[0] <= MAX_VIOLATION_FILES or kw.get('no_input'):
+            _violation(what, replay, **kw)
+        elif nviol[0] == MAX_VIOLATION_FILES + 1:
+            ck.log('further violations are counted but not written')
+    ck.violation = capped
     ck.regen()
     ck.lean(['LbzVerif.Props.C16'],
             extra_targets=() if os.environ.get('LBZDRV') else ('lbzdrv',))
@@ -380,10 +391,6 @@ def main():
             for idx in idxs:
                 for k in kinds_for(cls):
                     plan.append((sc, (cls, idx) + k))
-    if ck.quick:
-        # the skip scenarios (pre-existing output without -f) have few calls;
-        # thin the rest to keep the quick tier short
-        pass
     ck.log('injection runs planned: %d' % len(plan))
 
     reqs = []
